@@ -75,6 +75,7 @@ def confirm(d):
                 shutil.copy(src, dst)
             cmd = runcmd.replace("/tmp/seed/%s" % m.get("property", ""), wt)
             cmd = re.sub(r"cd /tmp/seed/\S+", "cd " + wt, cmd)
+            cmd = cmd.replace("<repo>", wt).replace("<REPO>", wt).replace("$REPO", wt)
             rc, out = sh(cmd, cwd=wt, timeout=900)
             res["demo_fails_with_patch"] = rc != 0
             res["demo_with_patch_tail"] = out[-400:]
